@@ -5,6 +5,11 @@ go 1.22.1
 require go.uber.org/thriftrw v0.0.0
 
 require (
+	golang.org/x/mod v0.17.0 // indirect
+	golang.org/x/sync v0.7.0 // indirect
+)
+
+require (
 	dario.cat/mergo v1.0.0 // indirect
 	github.com/ProtonMail/go-crypto v0.0.0-20230828082145-3c4c8a2d2371 // indirect
 	github.com/anmitsu/go-shlex v0.0.0-20200514113438-38f4b401e2be // indirect
@@ -28,6 +33,7 @@ require (
 	golang.org/x/crypto v0.31.0 // indirect
 	golang.org/x/net v0.33.0 // indirect
 	golang.org/x/sys v0.28.0 // indirect
+	golang.org/x/tools v0.21.1-0.20240531212143-b6235391adb3
 	gopkg.in/warnings.v0 v0.1.2 // indirect
 )
 
